@@ -523,17 +523,21 @@ def _closure_method_rewrite(text, dropped, method, build, rule_name, what):
         target = None
         for i in range(len(toks) - 5):
             if (toks[i].text == '.' and toks[i + 1].kind == 'ident' and toks[i + 1].text == method and toks[i + 2].text == '('
-                    and toks[i + 3].text == '|' and (toks[i + 4].kind == 'ident' or toks[i + 4].text == '_') and toks[i + 5].text == '|'):
-                target = i
-                break
+                    and toks[i + 3].text == '|'):
+                k = i + 4
+                while k < len(toks) and toks[k].text != '|':
+                    k = match[k] + 1 if toks[k].text in OPEN else k + 1
+                if k < len(toks) and k > i + 4:
+                    target = (i, k)
+                    break
         if target is None:
             break
-        i = target
+        i, k = target
         r0 = _postfix_start(toks, match, i)
         close = match[i + 2]
         recv = text[toks[r0].s:toks[i].s]
-        name = toks[i + 4].text
-        body = text[toks[i + 5].e:toks[close].s]
+        name = text[toks[i + 4].s:toks[k - 1].e]      # the closure's parameter pattern
+        body = text[toks[k].e:toks[close].s]
         new = build(recv, name, body)
         old = text[toks[r0].s:toks[close].e]
         d = old.count('\n') - new.count('\n')
@@ -569,6 +573,53 @@ def rule_option_map(text, dropped):
         text, dropped, 'map',
         lambda recv, name, body: f'(match {recv} {{ Some({name}) => Some({body}), None => None }})',
         'option-map', 'Option::map(closure) written as a match')
+
+
+def rule_iter_reduce(text, dropped):
+    """`RECV.iter().reduce(|A, B| BODY)`  and  `RECV.iter().max_by_key(|PAT| KEY)`  ->  an explicit loop over RECV.iter()
+    keeping the selected element in `verif_best` (initialised by the unit's `verif_no_element(&RECV)`, which only fixes the type; std semantics: reduce folds left to right; max_by_key keeps the LAST
+    of several maximal elements)."""
+    n = 0
+    while True:
+        if n > 10:
+            raise SliceError('iter-reduce: too many rewrites')
+        toks, match = _stmt_tokens(text)
+        target = None
+        for i in range(len(toks) - 8):
+            if (toks[i].text == '.' and toks[i + 1].text == 'iter' and toks[i + 2].text == '(' and toks[i + 3].text == ')'
+                    and toks[i + 4].text == '.' and toks[i + 5].text in ('reduce', 'max_by_key') and toks[i + 6].text == '(' and toks[i + 7].text == '|'):
+                k = i + 8
+                while k < len(toks) and toks[k].text != '|':
+                    k = match[k] + 1 if toks[k].text in OPEN else k + 1
+                target = (i, k)
+                break
+        if target is None:
+            break
+        i, k = target
+        r0 = _postfix_start(toks, match, i)
+        close = match[i + 6]
+        recv = text[toks[r0].s:toks[i].s]
+        params = text[toks[i + 8].s:toks[k - 1].e]
+        body = text[toks[k].e:toks[close].s]
+        if toks[i + 5].text == 'reduce':
+            parts = _split_args(params)
+            if len(parts) != 2:
+                raise SliceError('iter-reduce: reduce closure must have two parameters')
+            a, b = parts[0].strip(), parts[1].strip()
+            step = f'Some({a}) => {{ let {b} = verif_x; Some({body}) }}'
+        else:
+            step = (f'Some(verif_a) => {{ if ({{ let {params} = verif_a; {body} }}) > ({{ let {params} = verif_x; {body} }}) '
+                    f'{{ Some(verif_a) }} else {{ Some(verif_x) }} }}')
+        new = (f'{{ let mut verif_best = verif_no_element(&{recv}); for verif_x in {recv}.iter() {{ verif_best = match verif_best {{ None => Some(verif_x), {step} }}; }} verif_best }}')
+        old = text[toks[r0].s:toks[close].e]
+        d = old.count('\n') - new.count('\n')
+        if d < 0:
+            raise SliceError('iter-reduce would add lines')
+        text = text[:toks[r0].s] + new + '\n' * d + text[toks[close].e:]
+        n += 1
+    if n:
+        dropped.append(('iter-reduce', f'{n}x iterator reduce / max_by_key written as an explicit loop'))
+    return text
 
 
 def rule_lock_scope(text, dropped):
@@ -654,6 +705,7 @@ RULES = {
     'option-inspect': rule_option_inspect,
     'result-inspect': rule_result_inspect,
     'option-map': rule_option_map,
+    'iter-reduce': rule_iter_reduce,
 }
 
 
